@@ -224,6 +224,13 @@ func (m *BlockManager) processRequest(ctx context.Context, request *downloadRequ
 			}
 
 			if activeDownloadCount < m.concurrentBlockRequests {
+				// A download can finish at the same time as the delay. The request is marked complete
+				// before its downloader is removed, so check after looking at the downloaders. Don't
+				// request the block again, the completion is handled in the next iteration.
+				if m.currentRequestIsComplete() {
+					continue
+				}
+
 				if err := m.requestBlock(ctx, request.hash, request.height,
 					request.processor); err != nil {
 					logger.Warn(ctx, "Failed to request block : %s", err)
@@ -363,6 +370,13 @@ func (m *BlockManager) removeDownloader(ctx context.Context, downloader *BlockDo
 	m.downloaderLock.Unlock()
 }
 
+func (m *BlockManager) currentRequestIsComplete() bool {
+	m.currentLock.Lock()
+	defer m.currentLock.Unlock()
+
+	return m.currentIsComplete
+}
+
 func (m *BlockManager) markBlockRequestComplete(ctx context.Context, hash bitcoin.Hash32) {
 	// Update status of block request
 	m.currentLock.Lock()
@@ -396,12 +410,15 @@ func (c *downloadFinisher) onDownloaderCompleted(ctx context.Context, err error)
 		logger.Stringer("block_hash", hash), logger.Int("block_height", c.downloader.Height()))
 	logger.Verbose(ctx, "Finishing downloader : %s", err)
 
-	c.manager.removeDownloader(ctx, c.downloader)
-
 	if err == nil {
+		// Mark the request complete before the downloader is removed, so the request is never seen
+		// as having no active downloads while it is not yet complete.
 		c.manager.markBlockRequestComplete(ctx, hash)
+		c.manager.removeDownloader(ctx, c.downloader)
 		return
 	}
+
+	c.manager.removeDownloader(ctx, c.downloader)
 
 	if errors.Cause(err) == threads.Interrupted {
 		logger.Verbose(ctx, "Block download interrupted")
